@@ -19,8 +19,8 @@ Definition corr_ok (c : case) : bool :=
 Definition prop_ok (c : case) : bool :=
   c11_pred (c_nl c) (c_nr c) (c_lc c) (c_rc c) (c_dels c) (c_out c).
 
-(** known finding F10 (class 1): a cached side and two or more replicas on the loop side *)
-Definition known_class (c : case) : N :=
-  if (c_lc c && Nat.leb 2 (c_nr c)) || (c_rc c && Nat.leb 2 (c_nl c)) then 1%N else 0%N.
+(** F10 (cached side and >= 2 loop-side replicas: extra replay after the last round) was
+    repaired by a `fix:` commit; no known class is left for this property *)
+Definition known_class (c : case) : N := 0%N.
 
 Definition report (cs : list case) := classify corr_ok prop_ok known_class cs.
